@@ -10,8 +10,9 @@ HEADER = "From Coq Require Import ZArith List.\nFrom TV Require Import Common.Ha
 CASE_T = "C19.Corr.case"
 PROPS = ["C19/Props.v"]
 CLAUSE = {1: "failed-op-had-effect", 2: "exception-class-changed", 3: "deciding-fault-swallowed",
-          4: "handler-fault-not-contained", 5: "differs-from-twin", 6: "fault-free-differs-from-twin"}
-CORR = {1: "outcome", 2: "state", 3: "handler-log", 4: "fired", 5: "twin-state"}
+          4: "handler-fault-not-contained", 5: "differs-from-twin", 6: "fault-free-differs-from-twin",
+          7: "registrations-differ-from-twin"}
+CORR = {1: "outcome", 2: "state", 3: "handler-log", 4: "fired", 5: "twin-state", 6: "registrations"}
 EXNS = ["TraitError", "ValueError", "AttributeError", "RuntimeError"]
 
 
@@ -22,7 +23,7 @@ def st_term(s):
 
 def obs_term(o):
     out = C("Ok") if o["out"] == "Ok" else C("Raise", C(o["out"]))
-    return C("mkObs", out, st_term(o["st"]), [(Nat(j), a, b) for j, a, b in o["log"]])
+    return C("mkObs", out, st_term(o["st"]), [(Nat(j), a, b) for j, a, b in o["log"]], o["reg"])
 
 
 def plan_term(p):
@@ -58,7 +59,7 @@ def to_term(case, obs):
     h = []
     for (op, plan), st in zip(case["ops"], obs["steps"]):
         h.append((op_term(op, st["echo"]), plan_term(plan), bool(st["fired"]), obs_term(st["A"]), obs_term(st["T"])))
-    return (st_term(obs["init"]), h)
+    return (st_term(obs["init"]), obs["reg0"], h)
 
 
 def _plan_tag(plan):
